@@ -830,3 +830,4 @@ def _r16_5(res, P, cfgname):
 
 LEVEL = LEVEL + ''
 TECHNIQUE = 'operand-sensitive interprocedural must-pass-through of finiteness / precision / zero-divisor / domain guards; reviewed panic-edge inventory of the parsers with bounds provenance (find / rfind); grouped unwrap inventory with range arguments; loop-exit and recursion base-path analysis'
+LEVEL = LEVEL + ' Also (R16.5) digit shifts by -exponent in the integer-rounding family are preceded by the smaller_than_one() shortcut; (R01.1, shared) no borrow that raises the negative-UBig panic is dropped.'
